@@ -6,14 +6,14 @@ import impl, gen, oracle
 from common import frac, score_matches, score_to_float
 from impl import quiet, UnmatchedInstancePair, NaiveThresholdMatching, F
 
-RULE = ("overlap graphs built from 1-D run segmentations and 2-D/3-D object maps (predictions spanning k references, "
+RULE = ("two references competing for one prediction with IoUs less than 1e-6 apart (instances of 1000-4000 voxels); overlap graphs built from 1-D run segmentations and 2-D/3-D object maps (predictions spanning k references, "
         "references split into k predictions, shifted/merged instances) x metric {IOU,DSC,ASSD} x thresholds from a "
-        "rational grid plus exact-hit thresholds (threshold := exact score of a candidate) x allow_many_to_one {F,T}; "
+        "rational grid plus exact-hit thresholds (threshold := exact score of a candidate) plus thresholds one float beyond a candidate score x allow_many_to_one {F,T}; "
         "exhaustive: all pairs of {0,1,2}-label 1x4 (quick) / 1x5,2x2 (thorough) maps; "
         "non-trivial = at least 2 eligible candidates sharing a partner, or a score exactly at the threshold")
 
 GRID = {"IOU": [(0, 1), (1, 10), (1, 5), (1, 4), (1, 3), (2, 5), (1, 2), (3, 5), (2, 3), (3, 4), (4, 5), (1, 1)],
-        "DSC": [(0, 1), (1, 10), (1, 4), (1, 3), (1, 2), (2, 3), (3, 4), (4, 5), (9, 10), (1, 1)],
+        "DSC": [(0, 1), (1, 10), (1, 4), (1, 3), (1, 2), (11, 20), (3, 5), (5, 8), (2, 3), (3, 4), (4, 5), (9, 10), (1, 1)],
         "ASSD": [(0, 1), (1, 4), (1, 2), (1, 1), (3, 2), (2, 1), (3, 1), (5, 1), (10, 1)]}
 
 
@@ -117,7 +117,11 @@ def one_case(ctx, pred, ref, metric, thr, m2o, src, check_monotone=True):
             return
     if fragile or info["tie"]:
         return  # order/outcome legitimately depends on tie-breaking or on float rounding at the threshold
-    if [(r, p) for _, r, p in pairs] != [(c[1], c[2]) for c in ms]:
+    vals = [x for x, _, _ in pairs]
+    float_tie = metric == "ASSD" and any(a == b or oracle.near(a, b) for i, a in enumerate(vals) for b in vals[i + 1:])
+    if float_tie:
+        ctx.count("assd_equal_scores_order_not_compared")
+    elif [(r, p) for _, r, p in pairs] != [(c[1], c[2]) for c in ms]:
         ctx.disagree("best-first candidate order", inp, pairs, ms)
     ml = mod["lmap"]
     if "error" in ml:
@@ -140,10 +144,49 @@ def thresholds(ctx, pred, ref, metric):
         s = oracle.mask_score(metric, ref == r, pred == p)
         if s == s and float(s).is_integer():
             ts.append((int(s), 1))
+    if cands and metric != "ASSD" and rng.random() < 0.5:
+        # a threshold one float beyond a candidate's score on the failing side (must NOT match)
+        import math
+        r, p = rng.choice(cands)
+        sf = float(oracle.mask_score(metric, ref == r, pred == p))
+        t = math.nextafter(sf, math.inf)
+        if 0.0 < t <= 1.0:
+            ts.append(tuple(t.as_integer_ratio()))
     return ts
 
 
+def near_tie_case(rng):
+    """one prediction run against two reference runs whose IoUs differ by less than 1e-6 (instances of
+    ~1000-4000 voxels on a 1-D array); the lower-scoring reference gets the smaller label half of the time"""
+    from fractions import Fraction
+    for _ in range(20000):
+        p = rng.randint(1500, 3500)
+        a, b = rng.randint(800, 2500), rng.randint(800, 2500)
+        ha, hb = min(a, p // 2) - 1, min(b, p // 2) - 1
+        if ha < a // 3 or hb < b // 3:
+            continue
+        ia, ib = rng.randint(a // 3, ha), rng.randint(b // 3, hb)
+        fa, fb = Fraction(ia, p + a - ia), Fraction(ib, p + b - ib)
+        if fa != fb and abs(fa - fb) < Fraction(1, 2_000_000) and fa > Fraction(3, 10):
+            L = (a - ia) + p + (b - ib) + 4
+            ref = np.zeros(L, np.uint16)
+            pred = np.zeros(L, np.uint16)
+            la, lb = (1, 2) if rng.random() < 0.5 else (2, 1)
+            s0 = 2
+            ref[s0:s0 + a] = la
+            ps = s0 + a - ia
+            pred[ps:ps + p] = 7
+            ref[ps + p - ib:ps + p - ib + b] = lb
+            return pred.reshape(1, L), ref.reshape(1, L)
+    return None
+
+
 def corpus(ctx):
+    for k in range(2 if ctx.quick else 12):
+        c = near_tie_case(ctx.rng)
+        if c is not None:
+            ctx.count("near_tie_large_instances")
+            one_case(ctx, c[0], c[1], "IOU", (3, 10), False, f"corpus.near-tie{k}", check_monotone=False)
     # repaired defect: prediction eligible for two references with many-to-one (used to raise)
     ref = np.array([[1, 1, 1, 2, 2, 2]], np.uint8)
     pred = np.array([[1, 1, 1, 1, 1, 1]], np.uint8)
